@@ -634,6 +634,8 @@ class MinMaxAggregator:
                 rest_cond.append(cond)
         if oldmax is None:  # the result only occurs inside a conditional literal or under double negation
             return [stm]
+        if len(rest_cond) + 1 != len(stm.body):  # the result predicate occurs more than once
+            return [stm]
         if any(var.name == varname for cond in rest_cond for var in collect_ast(cond, "Variable")):
             return [stm]  # the value is also used in another literal
 
@@ -704,7 +706,7 @@ class MinMaxAggregator:
             return [elem]
         # split condition into the max predicate + translation and the rest
         old_max, minmaxpred, rest_cond = self._split_element(term_tuple[0].location, elem, rest_elems)
-        if minmaxpred is None or old_max is None:
+        if minmaxpred is None or old_max is None or len(rest_cond) + 1 != len(elem.condition):
             return [elem]
         weight_vars = collect_ast(term_tuple[0], "Variable")
         if any(var in weight_vars for cond in rest_cond for var in collect_ast(cond, "Variable")):
